@@ -60,6 +60,13 @@ def scenarios(ctx):
                 nt = NUMTYPES[ti % 13]; bo = ('little', 'big')[ti % 2]
                 c = history_case(r, nt, bo, sh, [letter], metadata=meta)
                 A.append(c)
+    # a value rewritten with one of the same width: a torn in-place write would splice two numbers
+    c = history_case(r, 'int32', 'little', (3,), ['ms'], metadata={'fs': 20000, 'tag': 'x'})
+    c['ops'] = [dict(op='metaset', value={'fs': 44100})]
+    A.append(c)
+    g = rhistory_case(r, 'float32', 'little', (), 'int64', [2, 1], ['ms'], metadata={'fs': 20000, 'tag': 'x'})
+    g['ops'] = [dict(op='metaset', value={'fs': 44100})]
+    G.append(g)
     for start in [None, [2, 0, 1], [1]]:
         for atom in [(), (2,)]:
             for n in (1, 2, 3):
